@@ -115,7 +115,12 @@ def run(tier, seed):
     from ffpack import lcc as _lcc
     _hs = [[1.0, 2.0], [0.0, 1.0, 2.0, 3.0], [0.0, 2.0, 1.0, 3.0, 0.0], [3.0, 1.0, 3.0], [0.0, 1.0, 0.0, 1.0]]
     _calls = []
+    from ffpack import utils as _utils
     for _h in _hs:
+        # the reversals extracted by the user beforehand (and normalised in place) are the user's: the counters start from the history
+        for _keep in (True, False):
+            if len(_h) >= 3 or _keep:
+                _calls.append(('sequencePeakValleyFilter', (lambda _h=_h, _keep=_keep: _utils.sequencePeakValleyFilter(list(_h), _keep)), f'{_h} keepEnds={_keep}'))
         for _name in cyc.NAMES:
             if not cyc.valid_for(_name, _h):
                 continue
